@@ -283,7 +283,10 @@ def _closest_points_on_segments_2d(a0x: float, a0y: float, a1x: float, a1y: floa
     t = 0.0
     if den > 0.0:
         s = (B * E - C * D) / den
-        t = (A * E - B * D) / den
+        # t is the projection of the point a0 + s*u onto the second line (equal to (A*E - B*D)/den in exact
+        # arithmetic): for nearly parallel segments den is rounding noise and two independent quotients would
+        # give an inconsistent pair (s, t) that the clamps below cannot repair
+        t = (B * s + E) / C
     elif C > 0.0:
         # parallel segments or degenerate first segment: project a0 (s = 0) onto the second segment
         t = E / C
